@@ -399,6 +399,8 @@ type reqSpec struct {
 	Inc   []string
 	Exc   []string
 	F     *hydrapb.FilterGroup
+	Many  bool // send through GetByIndexStreamFromMany (one query)
+	Full  bool // KeysOnly = false
 }
 
 func genReq(r *common.Rng, keys []string, ties bool) reqSpec {
@@ -415,11 +417,20 @@ func genReq(r *common.Rng, keys []string, ties bool) reqSpec {
 	if r.Chance(25) {
 		a := genTime(r, ties)
 		b := genTime(r, ties)
-		switch r.Intn(4) {
-		case 0:
+		switch r.Intn(8) {
+		case 0, 1:
 			q.FT = &a
-		case 1:
+		case 2, 3:
 			q.TT = &a
+		case 4:
+			z := int64(0) // the epoch itself: a non-nil FromTime that admits timestamp 0
+			if r.Bool() {
+				z = -1e9
+			}
+			q.FT = &z
+			if r.Bool() {
+				q.TT = &b
+			}
 		default:
 			if a > b {
 				a, b = b, a
@@ -430,6 +441,8 @@ func genReq(r *common.Rng, keys []string, ties bool) reqSpec {
 	if r.Chance(30) {
 		q.Max = []int32{1, 2, 3, 5}[r.Intn(4)]
 	}
+	q.Many = r.Chance(30)
+	q.Full = r.Chance(25)
 	if r.Chance(8) && len(keys) > 0 {
 		n := 1 + r.Intn(len(keys))
 		for i := 0; i < n; i++ {
